@@ -426,7 +426,15 @@ def run(ctx) -> None:
                 for n in walk_local(m.node):
                     if isinstance(n, ast.Assign) and any(isinstance(c, ast.Call) and dotted(c.func) == "list" for c in ast.walk(n.value)) and any(isinstance(t, ast.Name) and any(isinstance(x, ast.Name) and x.id == t.id for x in ast.walk(n.value)) for t in n.targets):
                         g = enclosing(n, (ast.If,))
-                        guards.setdefault(key, {})[is_async] = (src(g.test) if g is not None else "<unconditional>", f"{m.module.rel}:{n.lineno}")
+                        gtxt = src(g.test) if g is not None else "<unconditional>"
+                        from .common import wrapper_param
+
+                        wp = wrapper_param(m)
+                        if wp != "node":  # a private method may call its node parameter anything
+                            import re as _re
+
+                            gtxt = _re.sub(rf"\b{_re.escape(wp)}\b", "node", gtxt)
+                        guards.setdefault(key, {})[is_async] = (gtxt, f"{m.module.rel}:{n.lineno}")
     for key, d in guards.items():
         ok = False in d and True in d and d[False][0] == d[True][0]
         rep.add("C02.R5", f"executor[{key}]:materialise-guard", ok, (d.get(True) or d.get(False))[1], f"both runners materialise a generator result under '{d[False][0]}'" if ok else f"runners decide differently when to materialise a result: sync '{d.get(False, ('-',))[0]}' vs async '{d.get(True, ('-',))[0]}'")
